@@ -164,11 +164,12 @@ structure PageType where
   groups : List (String × Nat)
   deriving Repr, DecidableEq, BEq, Inhabited
 
-/-- `offset == 0 if a == 0 else (offset / a >= 0 and not offset % a)` with `offset = index + 1 - b`. -/
+/-- `offset == 0 if a == 0 else (offset * a >= 0 and not offset % a)` with `offset = index + 1 - b`
+(integer arithmetic only: no float division, no `OverflowError` outcome). -/
 def nthMatch (a b : Int) (index : Nat) : Bool :=
   let offset : Int := (index : Int) + 1 - b
   if a = 0 then offset == 0
-  else ((offset ≥ 0 && a > 0) || (offset ≤ 0 && a < 0)) && offset % a == 0
+  else offset * a ≥ 0 && offset % a == 0
 
 /-- `StyleFor._page_type_match(page_selector_type, page_type)`. -/
 def pageTypeMatch (s : Sel) (p : PageType) : Bool :=
